@@ -47,6 +47,7 @@ func main() {
 	verif := flag.String("verif", "/verif", "verification directory")
 	evidence := flag.String("evidence", "", "evidence file (default <verif>/evidence/<id>.json)")
 	list := flag.Bool("list", false, "list properties")
+	stableOf := flag.String("stable", "", "development aid: print the rename-stable form of a construct string and exit")
 	flag.Parse()
 	if *list {
 		var ids []string
@@ -94,6 +95,14 @@ func main() {
 		}
 		os.Exit(worst)
 	}
+	if *stableOf != "" {
+		for _, arch := range []string{"amd64", "arm64"} {
+			if k, err := Load(*repo, arch); err == nil {
+				fmt.Println(arch+":", k.StableConstruct(*stableOf))
+			}
+		}
+		return
+	}
 	f, ok := props[*prop]
 	if !ok {
 		fmt.Fprintf(os.Stderr, "unknown property %q\n", *prop)
@@ -131,6 +140,13 @@ func run(ctx *Ctx, f propFn, evidence string) (code int) {
 			return 2
 		}
 		ctx.k1 = k1
+	}
+	ctx.R.Stable = func(s string) string {
+		t := ctx.k1.StableConstruct(s)
+		if t == s && ctx.k2 != nil {
+			t = ctx.k2.StableConstruct(s)
+		}
+		return t
 	}
 	ctx.R.SetConfig("linux/amd64")
 	ctx.R.Stat("packages_amd64", len(k1.Pkgs))
